@@ -78,6 +78,32 @@ def apply_stubs(names):
             B.AnySymbolicStr.__repr__ = lambda self: "'<str>'"
             B.LazyIntSymbolicStr.__repr__ = lambda self: "'<str>'"
             B.SymbolicNumberAble.__format__ = lambda self, fmt: "<num>"
+            # f"{x}" without a conversion goes through CrossHair's format() patch, which deep-realises
+            # x first (an int is then enumerated value by value): render numbers as a constant and
+            # containers through their (patched) repr instead.
+            from crosshair import opcode_intercept as OI
+
+            if not getattr(OI.FormatStashingValue, "_verif_patched", False):
+                orig_format = OI.FormatStashingValue.__format__
+
+                def stash_format(self, fmt):
+                    from crosshair.tracers import NoTracing
+
+                    v = self.value
+                    if fmt == "":
+                        with NoTracing():  # isinstance/type are themselves modelled under tracing
+                            is_num = isinstance(v, (B.SymbolicInt, B.SymbolicFloat))
+                            is_container = type(v) in (list, dict, tuple)
+                        if is_num:
+                            self.formatted = "<num>"
+                            return ""
+                        if is_container:
+                            self.formatted = repr(v)
+                            return ""
+                    return orig_format(self, fmt)
+
+                OI.FormatStashingValue.__format__ = stash_format
+                OI.FormatStashingValue._verif_patched = True
         else:
             raise ValueError(f"unknown stub {n!r}")
 
